@@ -60,6 +60,19 @@ def run_case(ctx, case, model=True):
     nontrivial = check_predicate(ctx, case, obs, where)
     if model and ctx.model_available:
         E.compare_with_model(ctx, case["spec"], case["inputs"], obs, where)
+    # the balance holds after every calculation, also the next one on the same plant whose breaker table was updated in place
+    if case.get("second") is not None:
+        case2 = {"idx": case["idx"], "spec": case["spec"], "inputs": case["second"]}
+        where2 = {"case": dict(case, note="violated after the second calculation (inputs 'second') on the same plant")}
+        try:
+            E.apply_inputs(plant, case["second"])
+            plant.electric.do_power_balance_calculation()
+            obs2 = E.observe(plant, case["second"])
+        except Exception as e:
+            ctx.fail("predicate", "balance-raises-" + core.error_class(e), f"second calculation: {type(e).__name__}: {e}", where2)
+            return nontrivial
+        ctx.count("second_calculation_same_plant", True)
+        check_predicate(ctx, case2, obs2, where2)
     return nontrivial
 
 
@@ -85,7 +98,14 @@ def run(ctx):
     if CORPUS.exists():
         cases += [json.loads(p.read_text()) for p in sorted(CORPUS.glob("*.json"))]
     ncorp = len(cases)
-    cases += [E.gen_case(ctx.rng, i) for i in range(ctx.n(150, 4000))]
+    for i in range(ctx.n(150, 4000)):
+        case = E.gen_case(ctx.rng, i)
+        if case["spec"].get("bus_ties") and ctx.rng.random() < 0.3:
+            second = E.gen_inputs(ctx.rng, case["spec"], n=case["inputs"]["n"])
+            second["dtype"]["breaker"] = case["inputs"]["dtype"]["breaker"]
+            second["breaker_table_in_place"] = True
+            case["second"] = second
+        cases.append(case)
     for ci, case in enumerate(cases):
         nt = run_case(ctx, case)
         ctx.case_done(signature=signature(case) if nt else None, sample=case if ci == ncorp else None)
